@@ -475,6 +475,7 @@ type Key struct {
 	S2, T0, T1   [K]Poly
 	PK, SK       []byte
 	EtaBytesMax  int // most bytes any eta polynomial needed (136 = one block)
+	WrapCount    int // coefficients where A*s1 + s2 leaves [0,q) before the reduction (boundary of t's representative)
 	Uniform      UniformStats
 }
 
@@ -525,6 +526,11 @@ func KeyGen(zeta []byte) *Key {
 	t := MatVec(A, &k.S1)
 	pk := append([]byte{}, k.Rho...)
 	for i := 0; i < K; i++ {
+		for n := 0; n < N; n++ {
+			if raw := t[i][n] + CMod(k.S2[i][n]); raw < 0 || raw >= Q {
+				k.WrapCount++
+			}
+		}
 		t[i] = Add(&t[i], &k.S2[i])
 		for n := 0; n < N; n++ {
 			r1, r0 := Power2Round(t[i][n])
@@ -756,4 +762,56 @@ func VerifyLoose(pk, msg, sig []byte, lo Loose) (ok bool, why string) {
 		}
 	}
 	return true, ""
+}
+
+// DegeneratePK: rho followed by an all-zero t1. Under such a public key the verification
+// equation does not involve the challenge polynomial (c*t1*2^d = 0), so for ANY response z
+// and ANY hint vector h the signature (c = H(mu, UseHint(h, A*z)), z, h) satisfies the
+// specification's verification equations -- valid if and only if it also meets the
+// verifier-side conditions (norm of z, hint encoding rules). That isolates every one of
+// those conditions without a secret key.
+func DegeneratePK(rho []byte) []byte {
+	return append(append([]byte{}, rho...), make([]byte, K*320)...)
+}
+
+// ForgeDegenerate builds the signature for (z, h) under DegeneratePK(rho). z holds centred
+// coefficients; hb is the 83-byte hint section exactly as it will appear in the signature
+// (so non-canonical sections can be presented); h is the hint vector the section is meant
+// to decode to.
+func ForgeDegenerate(rho, msg []byte, z *[L][N]int64, h *[K][N]int64, hb []byte) (pk, sig []byte) {
+	pk = DegeneratePK(rho)
+	A := ExpandA(rho)
+	var zp [L]Poly
+	for i := 0; i < L; i++ {
+		for n := 0; n < N; n++ {
+			zp[i][n] = Mod(z[i][n])
+		}
+	}
+	w := MatVec(A, &zp)
+	var w1b []byte
+	for i := 0; i < K; i++ {
+		var v [N]int64
+		for n := range v {
+			v[n] = UseHint(h[i][n], w[i][n])
+		}
+		w1b = append(w1b, PackW1(&v)...)
+	}
+	mu := Shake256(64, Shake256(32, pk), msg)
+	c := Shake256(32, mu, w1b)
+	sig = append([]byte{}, c...)
+	for i := 0; i < L; i++ {
+		sig = append(sig, PackZ(&z[i])...)
+	}
+	return pk, append(sig, hb...)
+}
+
+// AZ returns A*z for the matrix of rho (coefficient form), for constructions that need to look at w'.
+func AZ(rho []byte, z *[L][N]int64) [K]Poly {
+	var zp [L]Poly
+	for i := 0; i < L; i++ {
+		for n := 0; n < N; n++ {
+			zp[i][n] = Mod(z[i][n])
+		}
+	}
+	return MatVec(ExpandA(rho), &zp)
 }
